@@ -29,7 +29,7 @@ INV = staticmethod(snap.inv_undirected)
 
 def plan(tier):
     if tier == "quick":
-        return {"hostile": 3300, "steered": 2100, "start": 600}
+        return {"hostile": 7000, "steered": 3500, "start": 1500}
     return {"hostile": 500000, "steered": 300000, "start": 100000}
 
 
